@@ -404,6 +404,139 @@ func findC08Scenario(name string) *schedScenario {
 	return nil
 }
 
+// c08Rollover: the CA is re-keyed. The next list is signed with the new key (same issuer name): the refresh is refused
+// (signer unknown to the validator) and the old list stays; a client of the new generation presents the new CA
+// certificate in its chain; from then on refreshes are accepted again - "a later successful refresh still takes effect".
+// With and without accepted refreshes before the re-key (whatever an accepted refresh remembers must not stand in the way).
+func c08Rollover(chk *fw.Check, c *c08Cast) (n int) {
+	newCA := c.p.Sibling
+	for _, disk := range []bool{false, true} {
+		for _, bg := range []bool{false, true} {
+			for before := 0; before <= 2; before++ {
+				n++
+				disk, bg, before := disk, bg, before
+				label := fmt.Sprintf("signer-rollover accepted-refreshes-before=%d fetch=%s %s", before, map[bool]string{false: "actively", true: "background"}[bg], be(disk))
+				res := seqWorld(func() {
+					w := NewCW(CWOpt{Disk: disk, SigMode: config.SignatureValidationModeVerify, Background: bg})
+					defer os.RemoveAll(w.Dir)
+					if err := w.Provision(); err != nil {
+						panic(err)
+					}
+					vsched.Drain()
+					tick := func() { w.Chk.VerifUpdateCRLs(true); vsched.Drain() }
+					expect := func(step string, want string) bool {
+						if got := c.probeAll(w); got != want {
+							chk.Violation("C08|rollover|"+step, fmt.Sprintf("%s, %s: probes [%s], expected [%s]", label, step, got, want), nil)
+							return false
+						}
+						vsched.Drain()
+						return true
+					}
+					w.Net.Serve(urlA, "v1", c.vers[1])
+					w.Lookup(c.probes[0], c.chain(c.probes[0]))
+					vsched.Drain()
+					if !expect("first-load", c.vector(1)) {
+						return
+					}
+					inForce := 1
+					for i := 0; i < before; i++ {
+						inForce = 2 + i
+						w.Net.Serve(urlA, fmt.Sprint("v", inForce), c.vers[inForce])
+						tick()
+						if !expect("accepted-refresh-before-the-re-key", c.vector(inForce)) {
+							return
+						}
+					}
+					// the re-keyed CA publishes a list naming the serial which only list 2 names
+					w.Net.Serve(urlA, "rekeyed", world.SimpleCRL(newCA, 9, 101, 102).DER())
+					tick()
+					if !expect("refresh-signed-with-the-new-key-before-the-validator-knows-it", c.vector(inForce)) {
+						return
+					}
+					nl := world.Leaf(newCA, bi(777), []string{urlA}, nil)
+					w.Lookup(nl, world.Chain(nl, newCA, c.p.Root))
+					vsched.Drain()
+					tick()
+					if !expect("refresh-after-a-handshake-presented-the-new-CA-certificate", c.vector(2)) {
+						return
+					}
+					tick()
+					expect("second-refresh-after-the-roll-over", c.vector(2))
+					w.Chk.Cleanup()
+				})
+				if res.Verdict != vsched.OK {
+					chk.Violation("C08|"+res.Verdict.String()+"|rollover", label+": "+firstLines(res.Detail, 5), nil)
+				}
+			}
+		}
+	}
+	return
+}
+
+// c08Mirror: a certificate names two distribution points. One refresh finds the first one down and is served by the
+// second (a mirror); afterwards the first one is back with the next list while the mirror still has the old one. A
+// successful refresh puts in force what the preferred (first) distribution point publishes - as it did before the outage.
+func c08Mirror(chk *fw.Check, c *c08Cast) (n int) {
+	const url1, url2 = "http://crl.test/primary.crl", "http://mirror.test/copy.crl"
+	var probes []*world.Ident
+	for _, pr := range c.probes {
+		probes = append(probes, world.Leaf(c.p.CA, pr.Cert.SerialNumber, []string{url1, url2}, nil))
+	}
+	for _, disk := range []bool{false, true} {
+		for _, bg := range []bool{false, true} {
+			n++
+			disk, bg := disk, bg
+			label := fmt.Sprintf("two-distribution-points fetch=%s %s", map[bool]string{false: "actively", true: "background"}[bg], be(disk))
+			res := seqWorld(func() {
+				w := NewCW(CWOpt{Disk: disk, SigMode: config.SignatureValidationModeVerify, Background: bg})
+				defer os.RemoveAll(w.Dir)
+				if err := w.Provision(); err != nil {
+					panic(err)
+				}
+				vsched.Drain()
+				tick := func() { w.Chk.VerifUpdateCRLs(true); vsched.Drain() }
+				expect := func(step string, v int) bool {
+					var out []string
+					for _, pr := range probes {
+						out = append(out, w.Lookup(pr, c.chain(pr)).String())
+					}
+					vsched.Drain()
+					if got := strings.Join(out, ","); got != c.vector(v) {
+						chk.Violation("C08|mirror|"+step, fmt.Sprintf("%s, %s: probes [%s], expected list %d [%s]", label, step, got, v, c.vector(v)), nil)
+						return false
+					}
+					return true
+				}
+				w.Net.Serve(url1, "v1", c.vers[1])
+				w.Net.Serve(url2, "v1", c.vers[1])
+				w.Lookup(probes[0], c.chain(probes[0]))
+				vsched.Drain()
+				if !expect("first-load", 1) {
+					return
+				}
+				w.Net.Down(url1)
+				w.Net.Serve(url2, "v2", c.vers[2])
+				tick()
+				if !expect("refresh-served-by-the-second-distribution-point", 2) {
+					return
+				}
+				w.Net.Serve(url1, "v3", c.vers[3])
+				tick()
+				if !expect("refresh-after-the-first-distribution-point-is-back-with-the-next-list", 3) {
+					return
+				}
+				tick()
+				expect("one-more-refresh", 3)
+				w.Chk.Cleanup()
+			})
+			if res.Verdict != vsched.OK {
+				chk.Violation("C08|"+res.Verdict.String()+"|mirror", label+": "+firstLines(res.Detail, 5), nil)
+			}
+		}
+	}
+	return
+}
+
 // RunC08 is the entry point of the C08 check.
 func RunC08(tier string, args []string) int {
 	if len(args) > 0 && args[0] == "worker" {
@@ -458,6 +591,9 @@ func RunC08(tier string, args []string) int {
 			fmt.Printf("  H backend=%s via=%s: states=%d transitions=%d depth=%d\n", be(disk), via, st.States, st.Transitions, st.DepthDone)
 		}
 	}
+	// signer roll-over and distribution-point fail-over histories (fixed histories, every step judged)
+	total.States += c08Rollover(chk, c)
+	total.States += c08Mirror(chk, c)
 	// schedule half
 	bound, maxExec := 2, 300000
 	perScenario, nshards := 120*time.Second, 16
